@@ -27,6 +27,14 @@ pub mod fifo {
     }
     pub fn set_overlap_counter(g: Option<Arc<AtomicI64>>) {
         OVERLAPS.with(|c| *c.borrow_mut() = g);
+        OVERLAP_PAIR.with(|p| *p.borrow_mut() = None);
+    }
+    thread_local! {
+        static OVERLAP_PAIR: RefCell<Option<(&'static str, &'static str)>> = const { RefCell::new(None) };
+    }
+    /// the pair of owner operations whose overlap this logical thread detected first
+    pub fn take_overlap_pair() -> Option<(&'static str, &'static str)> {
+        OVERLAP_PAIR.with(|p| p.borrow_mut().take())
     }
 
     #[derive(Debug, Clone, Copy, PartialEq, Eq)]
@@ -47,17 +55,44 @@ pub mod fifo {
         cap: usize,
         group: Option<Arc<AtomicI64>>,
         owner_busy: std::sync::atomic::AtomicBool,
+        readers: AtomicI64,
+        owner_op: Mutex<&'static str>,
         overlaps: Option<Arc<AtomicI64>>,
     }
 
+
+
     impl<T> Ring<T> {
-        fn owner_enter(&self) {
-            shim_sched::step("ring.owner.enter");
-            if self.owner_busy.swap(true, Ordering::SeqCst) {
-                if let Some(o) = &self.overlaps {
-                    o.fetch_add(1, Ordering::SeqCst);
+        fn flag(&self, first: &'static str, second: &'static str) {
+            if let Some(o) = &self.overlaps {
+                if o.fetch_add(1, Ordering::SeqCst) == 0 {
+                    OVERLAP_PAIR.with(|p| *p.borrow_mut() = Some((first, second)));
                 }
             }
+        }
+        /// a mutating owner operation (push, pop, destination of a steal) begins
+        fn owner_enter(&self, kind: &'static str) {
+            shim_sched::step("ring.owner.enter");
+            if self.owner_busy.swap(true, Ordering::SeqCst) {
+                self.flag(*self.owner_op.lock().unwrap(), kind);
+            } else {
+                *self.owner_op.lock().unwrap() = kind;
+                if self.readers.load(Ordering::SeqCst) > 0 {
+                    self.flag("spare_capacity", kind);
+                }
+            }
+        }
+        /// an owner-side read (spare_capacity) begins: two of them next to each other are
+        /// harmless, one next to a mutating owner operation is not
+        fn reader_enter(&self) {
+            shim_sched::step("ring.owner.read");
+            self.readers.fetch_add(1, Ordering::SeqCst);
+            if self.owner_busy.load(Ordering::SeqCst) {
+                self.flag(*self.owner_op.lock().unwrap(), "spare_capacity");
+            }
+        }
+        fn reader_exit(&self) {
+            self.readers.fetch_sub(1, Ordering::SeqCst);
         }
         fn owner_exit(&self) {
             self.owner_busy.store(false, Ordering::SeqCst);
@@ -87,6 +122,8 @@ pub mod fifo {
                     cap,
                     group: GROUP.with(|g| g.borrow().clone()),
                     owner_busy: std::sync::atomic::AtomicBool::new(false),
+                    readers: AtomicI64::new(0),
+                    owner_op: Mutex::new(""),
                     overlaps: OVERLAPS.with(|g| g.borrow().clone()),
                 }),
             }
@@ -97,16 +134,21 @@ pub mod fifo {
         pub fn capacity(&self) -> usize {
             self.r.cap
         }
+        /// Owner-side in st3: it subtracts two relaxed loads (`capacity - (tail - head)`), which is
+        /// only meaningful on the owner's thread; next to a push of the owner it underflows.
         pub fn spare_capacity(&self) -> usize {
+            self.r.reader_enter();
             shim_sched::step("ring.spare_capacity");
-            self.r.cap - self.r.q.lock().unwrap().len()
+            let n = self.r.cap - self.r.q.lock().unwrap().len();
+            self.r.reader_exit();
+            n
         }
         pub fn is_empty(&self) -> bool {
             shim_sched::step("ring.is_empty");
             self.r.q.lock().unwrap().is_empty()
         }
         pub fn push(&self, item: T) -> Result<(), T> {
-            self.r.owner_enter();
+            self.r.owner_enter("push");
             shim_sched::step("ring.push");
             let mut q = self.r.q.lock().unwrap();
             if q.len() >= self.r.cap {
@@ -124,7 +166,7 @@ pub mod fifo {
             Ok(())
         }
         pub fn pop(&self) -> Option<T> {
-            self.r.owner_enter();
+            self.r.owner_enter("pop");
             shim_sched::step("ring.pop");
             let x = self.r.q.lock().unwrap().pop_front();
             self.r.owner_exit();
@@ -150,7 +192,7 @@ pub mod fifo {
             }
             let want = count_fn(n);
             // the destination ring is used as its owner would use it
-            dest.r.owner_enter();
+            dest.r.owner_enter("steal-into");
             shim_sched::step("ring.steal.move");
             if Arc::ptr_eq(&self.r, &dest.r) {
                 // stealing from oneself: st3 would see its own free capacity; nothing to move
